@@ -94,6 +94,16 @@ for n, h in enumerate(i2m):
 mg["int2magic_prefix_ok"] = all(h[:4] == bytes([n & 255, n >> 8]).hex() for n, h in enumerate(i2m))
 mg["int2magic_suffix_classes"] = {k: (v if len(v) < 100 else "rest") for k, v in suffix.items()}
 mg["int2magic_bad_inverse"] = bad_inverse[:50]
+# which table make_std_api / get_opcode_module picks for a plain (major, minor) version (T2)
+sa = []
+for a in range(1, 4):
+    for b in range(0, 15):
+        try:
+            mod = OI.get_opcode_module((a, b), None)
+            sa.append([a, b, mod.__name__.split(".")[-1]])
+        except Exception:
+            pass
+mg["std_api_tables"] = sa
 res["magics"] = mg
 
 # ------------------------------------------------------------- op tables (T1)
